@@ -11,9 +11,11 @@ if os.path.exists(_pf):
     prop = open(_pf).read()  # property text only
 else:
     _p = _props[pid]
-    prop = f"{pid} - {_p.get('title', '')}\n\n{_p.get('statement', _p.get('description', ''))}\n"
+    prop = (f"{pid} - {_p.get('title', '')}\n\n{_p.get('statement', _p.get('description', ''))}\n\n"
+            f"Quantified over: {_p.get('quantifier', {}).get('text', '')}\n\n"
+            f"Anchored in: {', '.join(_p.get('anchors', {}).get('files', []))}\n")
 earlier = ""
-if wave in ("3", "4", "5", "6"):
+if wave in ("3", "4", "5", "6", "7"):
     # one-line descriptions of the changes earlier authors already produced for this property (their own words; nothing of /verif's checks)
     lines = []
     for d in sorted(glob.glob(f"/verif/seeded/{pid}-*/")):
@@ -83,7 +85,16 @@ of two quantities is used, what happens for None - and make the code silently de
 plausible (the docstring stays as it is).
 Mutant b is your FREE CHOICE: the subtlest property-breaking change you can find that is not in the list below - think about
 what a careful reviewer would most likely wave through.
-""" + earlier if wave == "6" else "") + f"""
+""" + earlier if wave == "6" else "") + ("""Mutant a should be an OPTIMISATION slip: introduce a plausible performance shortcut into code the property depends on - a cached
+value that is not invalidated when one of its inputs changes, a fast path / early return for "the common case" whose condition is
+slightly too broad, an out-of-place operation replaced by an in-place one, something hoisted out of a loop although it depends on the
+loop variable, a buffer reused between calls, work skipped because "nothing changed" judged by the wrong thing, a loop vectorised with
+a broadcast that is only right for some shapes - so that the result is wrong exactly where the shortcut's assumption fails.
+Mutant b should be a COMBINATION slip: correct for every feature in isolation and for the combinations the tests use, wrong only when
+TWO specific legal features meet (for instance a delay together with batch size > 1, an override together with sharing, training mode
+together with a resize, one particular class together with one particular option, two components of one container), preferably in a
+file that none of the changes listed below touches.
+""" + earlier if wave == "7" else "") + f"""
 For EACH mutant (a, b):
  1. Make the change in the worktree (start each from a clean tree: `git -C {wt} checkout -- .`).
  2. Run the existing test suite and make sure it still passes:
